@@ -23,6 +23,7 @@ type replayCase struct {
 	Tamper    string `json:"tamper"`
 	Rehash    bool   `json:"rehash"`
 	NewState  bool   `json:"new_state"`
+	Tour      bool   `json:"tour,omitempty"`
 	Kind      string `json:"kind"` // tamper | valid | stale | correspondence
 	Detail    string `json:"detail,omitempty"`
 }
@@ -31,6 +32,7 @@ type replayCase struct {
 type filled struct {
 	Parent, Root, OldRoot, Hash *felt.Felt
 	TxHashes                    []*felt.Felt
+	M                           modelHashes
 }
 
 func (f *filled) apply(b *Built) {
@@ -117,7 +119,7 @@ func main() {
 	or := hx.StartOracle(c.OraclePath)
 	defer or.Close()
 	r := &runner{c: c, or: or, maxTampers: 90}
-	budget := 42 * time.Second
+	budget := 34 * time.Second
 	if c.Thorough() {
 		r.maxTampers = 1 << 30
 		budget = 15 * time.Minute
@@ -128,6 +130,8 @@ func main() {
 		c.LoadReplay(&rc)
 		if rc.Kind == "stale" {
 			r.staleOldRoot()
+		} else if rc.Kind == "class-fixture" {
+			r.classFixtures()
 		} else if rc.Kind == "crossing" {
 			r.crossingRegression()
 		} else if rc.Kind == "fixture" || rc.Kind == "probe" {
@@ -137,13 +141,19 @@ func main() {
 			}
 		} else {
 			r.only = &rc
-			r.runChain(rc.ChainSeed)
+			if rc.Tour {
+				r.runTour(rc.ChainSeed)
+			} else {
+				r.runChain(rc.ChainSeed)
+			}
 		}
 		c.Finish(rule)
 	}
 	r.staleOldRoot()
 	r.crossingRegression()
 	r.fixtures()
+	r.classFixtures()
+	r.runTour(c.Seed)
 	rng := hx.NewRNG(c.Seed)
 	start := time.Now()
 	chains := 0
